@@ -26,7 +26,7 @@ RetFails(e) ==   \* evaluated on the state BEFORE the call
     [] e.op = "find"      -> F(e.ret = FindId(e.key), "find does not return the first entry with that name (case-insensitively)")
     [] e.op = "locate"    -> F(Hits(e.key) = {} \/ e.ret = FindId(e.key), "locate did not return the existing entry")
     [] e.op = "length"    -> F(e.ret = Len(items), "length")
-    [] e.op = "get"       -> F(e.index < 0 \/ e.index >= Len(items) \/ e.ret = items[e.index + 1][3], "get(index) is not the entry at that position")
+    [] e.op = "get"       -> F(IF e.index < 0 \/ e.index >= Len(items) THEN e.ret = "none" ELSE e.ret = items[e.index + 1][3], "get(index) is not the entry at that position")
     [] OTHER              -> ""
 
 Init == l = 1 /\ items = <<>>
